@@ -17,6 +17,7 @@ B_CODES = {
     77: "wheel entry with a deadline that was never inserted",
     78: "the runtime program never finished (a timer never fired)",
     79: "Timeout reported Elapsed although its inner future was ready at the first poll",
+    80: "the first delivered Interval tick was not start (a cancelled first tick moved the schedule)",
 }
 
 
@@ -162,11 +163,11 @@ def oracle_b(case, out):
     if out[:1] == [2] and len(out) == 2:
         # interval_at(period 0) is a documented panic
         i, steps = 3, case[2] if len(case) > 2 else 0
-        widths = {1: 1, 2: 1, 3: 1, 4: 3, 5: 4, 6: 1, 7: 1, 8: 2, 9: 1}
+        widths = {1: 1, 2: 1, 3: 1, 4: 3, 5: 4, 6: 1, 7: 1, 8: 2, 9: 1, 10: 2, 11: 4}
         try:
             for _ in range(steps):
                 op = case[i]
-                if op == 5 and case[i + 2] == 0:
+                if op in (5, 11) and case[i + 2] == 0:
                     return None
                 i += 1 + widths[op]
         except (IndexError, KeyError):
@@ -205,6 +206,70 @@ def oracle_i(case, out):
     return None
 
 
+def oracle_l(case, out):
+    """mode 4: every turn of the loop wakes exactly the due sleeps, whether or not the
+    driver found an I/O completion"""
+    p = gen_c09.parse_l(case)
+    if p is None:
+        return None if out == [99999] else "malformed case was not rejected"
+    if out == [3]:
+        return None
+    if out[:1] != [0]:
+        return "unexpected result %r" % out
+    live = {}
+    made = 0
+    o = 1
+    try:
+        for s in p[1]:
+            if s[0] == 1:
+                _, t, d = s
+                r = out[o]
+                o += 1
+                if r != (1 if d <= t else 0):
+                    return "sleep_until(slot %d) polled at slot %d: ready=%d" % (d, t, r)
+                if d > t:
+                    live[made] = d
+                made += 1
+            elif s[0] == 2:
+                _, t, ans, rem = s
+                n = out[o]
+                ws = out[o + 1:o + 1 + n]
+                o += 1 + n
+                exp = [i for (d, i) in sorted((d, i) for i, d in live.items() if d <= t)]
+                for i in exp:
+                    del live[i]
+                if ws != exp:
+                    return ("%s at slot %d with %s woke sleeps %r, expected %r" % (
+                        "poll_with(ZERO)" if rem else "poll()", t,
+                        "an I/O completion waiting" if ans else "nothing to complete", ws, exp))
+            else:
+                o += 1
+                live.pop(s[2], None)
+        n = out[o]
+        left = out[o + 1:o + 1 + n]
+        if left != sorted(live.values()) or o + 1 + n != len(out):
+            return "wheel holds deadlines %r at the end, expected %r" % (left, sorted(live.values()))
+    except IndexError:
+        return "truncated output"
+    return None
+
+
+def oracle_f(case, out):
+    if out == [99999]:
+        return None
+    if len(case) == 6 and case[3] == 0 and case[4] == 0:
+        return None if out == [2, 9] else "interval_at(zero period) did not panic"
+    if len(case) != 6 or out[:1] != [0] or len(out) != case[5] + 2:
+        return "unexpected result %r" % out
+    for j, f in enumerate(out[1:-1]):
+        if f != 1:
+            return ("attempt %d at the first tick (earlier attempts dropped before start) does not sleep "
+                    "until start" % (j + 1))
+    if out[-1] != 1:
+        return "dropped tick left a timer in the wheel"
+    return None
+
+
 class C09(diffcheck.DiffProp):
     pid = "C09"
     manifest = dict(
@@ -221,7 +286,10 @@ class C09(diffcheck.DiffProp):
             "mode 1 = 2..17 operations on the real timer wheel (insert/update_waker/cancel/min_timeout/wake/"
             "Sleep::poll/Runtime::poll fragment) with deadlines past, now, next, near, far and equal, on a "
             "non-decreasing slot clock executed in real time; mode 2 = 2..7-step programs on a real Runtime "
-            "(both drivers); mode 3 = Interval arithmetic with offsets/periods up to 1500 years; ~3% malformed. "
+            "(both drivers, incl. timers next to I/O that completes at every driver poll and Intervals whose first "
+            "tick is cancelled); mode 3 = Interval arithmetic with offsets/periods up to 1500 years; mode 4 = "
+            "Runtime::poll_with/poll turns by hand with and without a waiting completion; mode 5 = first tick "
+            "dropped 1..5 times, deadline read back from the wheel; ~3% malformed. "
             "distinct = distinct case lines; non-trivial = accepted, and (mode 1) a timer entered the wheel and "
             "the wheel was observed afterwards, (mode 2/3) the program ran")
     trusted_base = [
@@ -241,6 +309,10 @@ class C09(diffcheck.DiffProp):
         "the clock (every Instant::now() read by the wheel) is an arbitrary sequence of values supplied by the "
         "environment; theorems that need it say so (none needs monotonicity)",
         "wakers do not re-enter the timer wheel from inside wake() (the executor's wakers only schedule)",
+        "what driver.poll answers (a completion, TimedOut, Interrupted, another error) is an input of the "
+        "environment; every answer but 'another error' (a panic in poll_with) is followed by wake()",
+        "once a tick of an Interval has completed the clock has reached its start (from never-early and a "
+        "monotone Instant); only C09_interval_first_tick_cancel_safe / C09_interval_tick use it",
         "fewer than 2^64 timers are created per runtime (insert panics at the end of the generation counter; "
         "the panic is modelled and exercised)",
         "Instant arithmetic does not overflow (i64 seconds): sleep(Duration::MAX) style overflow panics of std "
@@ -257,6 +329,10 @@ class C09(diffcheck.DiffProp):
                 return oracle_b(case, out)
             if case[0] == 3:
                 return oracle_i(case, out)
+            if case[0] == 4:
+                return oracle_l(case, out)
+            if case[0] == 5:
+                return oracle_f(case, out)
         except Exception as e:  # malformed output must not crash the check
             return "oracle could not decode the output: %r" % (e,)
         return None if out == [99999] else "malformed case was not rejected"
